@@ -428,6 +428,10 @@ class Link:
                 break
             frame = self._inbuf[4:4 + size]
             self._inbuf = self._inbuf[4 + size:]
+            if self.busy:
+                hook = getattr(self.handler, "on_frame_queued", None)
+                if hook is not None:
+                    hook(self, frame)     # arrived behind a request of this connection that is still unanswered
             self._frames.append(frame)
         self._pump()
 
